@@ -227,8 +227,32 @@ pub fn gen_msg(r: &mut Rng) -> M {
 }
 
 /// Generate the args of `n` C07 cases.
+const KINDS: [&str; 11] = ["hs", "ka", "ch", "un", "in", "ni", "hv", "bf", "rq", "pc", "cn"];
+
 pub fn gen(r: &mut Rng, n: usize) -> Vec<String> {
     let mut out = vec![];
+    // "decoding those bytes yields the same message": the emitted bytes of one message of every kind, read back through
+    // the connection's receive path in two segments, every cut position of the short ones (op `st` of C06)
+    for _ in 0..2 {
+        for kind in 0..11 {
+            let m = loop {
+                let m = gen_msg(r);
+                if m_toks(&m)[0] == KINDS[kind] {
+                    break m;
+                }
+            };
+            let bytes = impl_data(&m);
+            if bytes.len() <= 80 {
+                for c in 1..bytes.len() {
+                    out.push(format!("st {} {}", c, hex(&bytes)));
+                }
+            } else {
+                for c in [1usize, 4, 5, bytes.len() / 2, bytes.len() - 1] {
+                    out.push(format!("st {} {}", c, hex(&bytes)));
+                }
+            }
+        }
+    }
     for k in 0..n {
         match k % 3 {
             0 => out.push(format!("enc {}", m_toks(&gen_msg(r)).join(" "))),
